@@ -24,14 +24,15 @@ Lemma accepts_nil : forall a, accepts a a [].
 Proof. intros a ev acc. exists ev, acc. reflexivity. Qed.
 
 (* ---- character data --------------------------------------------------------------------------------------- *)
-Lemma xrun_chardata : forall w st ev v, has 60 w = false ->
+Lemma xrun_chardata : forall w st ev v, has 60 w = false -> has 62 w = false ->
   xrun (mkPst st ev [] [] [] (MContent v)) w
   = match vrun v w with Some v' => Some (mkPst st ev [] [] [] (MContent v')) | None => None end.
 Proof.
-  induction w as [|c t IH]; intros st ev v H; [reflexivity|].
-  unfold has in H. cbn [existsb] in H. apply orb_false_elim in H. destruct H as [H1 H2].
-  cbn [xrun xstep vrun]. assert (E : (c =? 60) = false) by lia. rewrite E.
-  destruct (vstep v c) as [v'|]; [|reflexivity]. apply IH. exact H2.
+  induction w as [|c t IH]; intros st ev v H G; [reflexivity|].
+  unfold has in H, G. cbn [existsb] in H, G. apply orb_false_elim in H. destruct H as [H1 H2].
+  apply orb_false_elim in G. destruct G as [G1 G2].
+  cbn [xrun xstep vrun]. assert (E : (c =? 60) = false) by lia. assert (E2 : (c =? 62) = false) by lia. rewrite E, E2. cbn [andb].
+  destruct (vstep v c) as [v'|]; [|reflexivity]. apply IH; assumption.
 Qed.
 
 Lemma has_lt_free : forall nl quot s, has 60 (flat_map (esc nl quot) s) = false.
@@ -46,7 +47,7 @@ Qed.
 Lemma accepts_text : forall a s, forallb is_xml_char s = true -> accepts a a (xml_escape s).
 Proof.
   intros a s H ev acc. exists ev, (rev s ++ acc). unfold cst.
-  rewrite xml_escape_esc, xrun_chardata by apply has_lt_free. rewrite vrun_esc by exact H. reflexivity.
+  rewrite xml_escape_esc, xrun_chardata by (apply has_lt_free || apply has_gt_free). rewrite vrun_esc by exact H. reflexivity.
 Qed.
 Lemma accepts_space : forall a, accepts a a [32].
 Proof. intros a ev acc. exists ev, (32 :: acc). reflexivity. Qed.
